@@ -24,7 +24,7 @@ package keeper
 //@ inline-within-module
 //@ modifies world if denom == ptypes.Eden || denom == ptypes.EdenB
 //@ modifies module:commitment, bank[addr], bank[modAddr("commitment")]
-//@ ensures C02/custody-takes-the-tokens: err == nil && denom != ptypes.Eden && denom != ptypes.EdenB ==> bal(ctx, modAddr("commitment"), d) == old(bal(ctx, modAddr("commitment"), d)) + ite(d == denom, amount, 0) && bal(ctx, addr, d) == old(bal(ctx, addr, d)) - ite(d == denom, amount, 0) && supply(ctx, d) == old(supply(ctx, d))
+//@ ensures C02,C07/custody-takes-the-tokens: err == nil && denom != ptypes.Eden && denom != ptypes.EdenB ==> bal(ctx, modAddr("commitment"), d) == old(bal(ctx, modAddr("commitment"), d)) + ite(d == denom, amount, 0) && bal(ctx, addr, d) == old(bal(ctx, addr, d)) - ite(d == denom, amount, 0) && supply(ctx, d) == old(supply(ctx, d))
 //@ requires amount >= 0
 //@ requires addr != modAddr("commitment")
 //@ ensures C12/total-committed: err == nil && denom != ptypes.Eden && denom != ptypes.EdenB ==> c12TotalGap(ctx, d) == old(c12TotalGap(ctx, d))
@@ -38,7 +38,7 @@ package keeper
 //@ inline-within-module
 //@ modifies world if denom == ptypes.Eden || denom == ptypes.EdenB
 //@ modifies module:commitment, bank[addr], bank[modAddr("commitment")]
-//@ ensures C02/custody-releases-the-tokens: err == nil && denom != ptypes.Eden && denom != ptypes.EdenB ==> bal(ctx, modAddr("commitment"), d) == old(bal(ctx, modAddr("commitment"), d)) - ite(d == denom, amount, 0) && bal(ctx, addr, d) == old(bal(ctx, addr, d)) + ite(d == denom, amount, 0) && supply(ctx, d) == old(supply(ctx, d))
+//@ ensures C02,C07/custody-releases-the-tokens: err == nil && denom != ptypes.Eden && denom != ptypes.EdenB ==> bal(ctx, modAddr("commitment"), d) == old(bal(ctx, modAddr("commitment"), d)) - ite(d == denom, amount, 0) && bal(ctx, addr, d) == old(bal(ctx, addr, d)) + ite(d == denom, amount, 0) && supply(ctx, d) == old(supply(ctx, d))
 //@ requires amount >= 0
 //@ requires addr != modAddr("commitment")
 //@ ensures C12/account-delta: err == nil && denom != ptypes.Eden && denom != ptypes.EdenB ==> committedOf(k.GetCommitments(ctx, addr), d) == old(committedOf(k.GetCommitments(ctx, addr), d)) - ite(d == denom, amount, 0)
